@@ -529,20 +529,6 @@ func (c *Chunker) buildSections(doc *model.Document) []*Section {
 
 		// Process headings on this page
 		for _, heading := range page.Layout.Headings {
-			// If we have content before this heading, add it
-			if len(preambleContent) > 0 && len(sectionStack) == 0 {
-				// Content before first heading
-				preambleSection := &Section{
-					Title:     "",
-					Path:      nil,
-					Content:   preambleContent,
-					PageStart: preambleStartPage,
-					PageEnd:   preambleEndPage,
-				}
-				sections = append(sections, preambleSection)
-				preambleContent = nil
-			}
-
 			// Create new section for this heading
 			newSection := &Section{
 				Heading:      &heading,
@@ -555,6 +541,20 @@ func (c *Chunker) buildSections(doc *model.Document) []*Section {
 
 			// Handle section hierarchy
 			if heading.Level <= c.config.MinHeadingLevel {
+				// If we have content before this heading, add it
+				if len(preambleContent) > 0 && len(sectionStack) == 0 {
+					// Content before first heading
+					preambleSection := &Section{
+						Title:     "",
+						Path:      nil,
+						Content:   preambleContent,
+						PageStart: preambleStartPage,
+						PageEnd:   preambleEndPage,
+					}
+					sections = append(sections, preambleSection)
+					preambleContent = nil
+				}
+
 				// This is a major heading - update path
 				// Pop stack until we find parent level
 				for len(sectionStack) > 0 {
@@ -585,14 +585,22 @@ func (c *Chunker) buildSections(doc *model.Document) []*Section {
 				sectionStack = append(sectionStack, newSection)
 			} else {
 				// Minor heading - include in current section's content
+				elem := ContentElement{
+					Type: model.ElementTypeHeading,
+					Text: heading.Text,
+					Page: pageIndex,
+					BBox: heading.BBox,
+				}
+
 				if len(sectionStack) > 0 {
 					currentSection := sectionStack[len(sectionStack)-1]
-					currentSection.Content = append(currentSection.Content, ContentElement{
-						Type: model.ElementTypeHeading,
-						Text: heading.Text,
-						Page: pageIndex,
-						BBox: heading.BBox,
-					})
+					currentSection.Content = append(currentSection.Content, elem)
+				} else {
+					preambleContent = append(preambleContent, elem)
+					if preambleStartPage == 0 {
+						preambleStartPage = pageIndex
+					}
+					preambleEndPage = pageIndex
 				}
 			}
 		}
